@@ -20,7 +20,7 @@ from vt.monitors import forkserver, fsmon
 ID = 'C17'
 TIERS = {
     'quick': dict(shards=16, files=40, real_every=60, watchdog_s=900),
-    'thorough': dict(shards=16, files=2500, real_every=600, watchdog_s=7000),
+    'thorough': dict(shards=16, files=1200, real_every=600, watchdog_s=5000),
 }
 RULE = ('case = tabular file (CSV or parquet; int/float/bool/datetime/string/unicode columns, nulls) x one invocation: '
         'discover (-r/-R, output to file, to "-" or omitted, input from "-"), verify (-a/-f, -7, --epsilon, -t, against '
@@ -60,10 +60,14 @@ def gen_file(rng, i):
         if k == 'str_obj':
             c['values'] = [None if v is None else (v.replace('\r', ' ').replace('\n', ' ').replace('\x01', 'x').replace('\x00', 'x') or 'e')
                            for v in c['values']]
+        if k == 'str_obj' and rng.random() < 0.15:
+            # text holding characters that end a "line" for str.splitlines() but not a CSV record, quotes and delimiters
+            odd = ['a\x0cb', 'x\u2028y', 'p\x85q', 'v\x0bw', 'm\x1cn', 'r\x1ds', 't\x1eu', 'k\u2029l', 'say "q"', 'comma, inside', "it's", 'ends in \\', '\\']
+            c['values'] = [None if v is None else rng.choice(odd) for v in c['values']]
         if k == 'float64':
             c['values'] = [v if v not in ('inf', '-inf') else 1e300 for v in c['values']]
         cols.append(c)
-    return {'cols': cols, 'nrows': n, 'fmt': ['csv', 'parquet'][i % 2]}
+    return {'cols': cols, 'nrows': n, 'fmt': ['csv', 'parquet'][i % 2], 'choices': rng.randrange(10 ** 9)}
 
 
 def write_file(spec, path):
@@ -98,7 +102,8 @@ def in_dir(d):
 
 def run_file(ctx, spec, idx):
     rec = ctx.rec
-    rng = ctx.rng
+    import random as _random
+    rng = _random.Random(spec.get('choices', 0))      # every choice below is a function of the case, so a witness replays exactly
     from tdda.constraints.pd.constraints import load_df, discover_df, verify_df, detect_df
     d = os.path.join(ctx.scratch, 'c17')
     shutil.rmtree(d, ignore_errors=True)
@@ -157,7 +162,7 @@ def run_file(ctx, spec, idx):
         rec.event('cli:stdin_input')
     try:
         if in_stdin:
-            want = lib(lambda: discover_df(load_df(io.StringIO(stdin.decode('utf-8'))), inc_rex=rex))
+            want = lib(lambda: discover_df(load_df(dpath), inc_rex=rex))     # the same bytes, loaded from the file
         else:
             want = lib(lambda: discover_df(load_df(dpath), inc_rex=rex, df_path=dpath))
         want_text = want.to_json() if want is not None else None
@@ -247,10 +252,13 @@ def run_file(ctx, spec, idx):
             flags += ['-t', t]
             kw['type_checking'] = t
         cfile = rng.choice(['pert.tdda', 'pert.tdda', cons_name])
-        pos = [data, cfile]
+        v_stdin = spec['fmt'] == 'csv' and rng.random() < 0.2
+        pos = ['-' if v_stdin else data, cfile]
         args = ['verify'] + (flags + pos if rng.random() < 0.5 else pos + flags)
         case = case_of(args, 'verify')
-        res = run_cli(ctx, args, d)
+        res = run_cli(ctx, args, d, stdin=open(dpath, 'rb').read() if v_stdin else None)
+        if v_stdin:
+            rec.event('cli:stdin_input')
         rec.event('cli:verify')
         try:
             buf = io.StringIO()
@@ -269,8 +277,9 @@ def run_file(ctx, spec, idx):
             m1 = re.search(r'passing: (\d+)\n.*failing: (\d+)', res.out)
             rec.violation('verify_report_differs', {'case': case, 'mech': dict(mech, counts_equal=bool(m1) and (int(m1.group(1)), int(m1.group(2))) == (v.passes, v.failures)),
                                                     'facts': {'cli': res.out[-600:], 'library': want_out[-600:]}})
-        crosscheck(args, res)
-        solo.append({'args': args, 'outfile': None, 'bytes': None, 'stdout': res.out, 'status': res.status})
+        crosscheck(args, res, stdin=open(dpath, 'rb').read() if v_stdin else None)
+        if not v_stdin:
+            solo.append({'args': args, 'outfile': None, 'bytes': None, 'stdout': res.out, 'status': res.status})
     # ---------------- detect with flags --------------------------------------------------
     for _ in range(3):
         flags = []
@@ -312,13 +321,16 @@ def run_file(ctx, spec, idx):
         ofmt = rng.choice(['csv', 'csv', 'parquet', 'dash'])
         outname = {'csv': 'det.csv', 'parquet': 'det.parquet', 'dash': '-'}[ofmt]
         cfile = rng.choice(['pert.tdda', 'pert.tdda', cons_name])
-        args = ['detect'] + flags + [data, cfile, outname] + tail
+        d_stdin = spec['fmt'] == 'csv' and rng.random() < 0.2
+        args = ['detect'] + flags + ['-' if d_stdin else data, cfile, outname] + tail
         case = case_of(args, 'detect', [('detect_out=' + ofmt,)])
         for f in ('det.csv', 'det.parquet', 'lib.csv', 'lib.parquet'):
             if os.path.exists(os.path.join(d, f)):
                 os.unlink(os.path.join(d, f))
-        res = run_cli(ctx, args, d)
+        res = run_cli(ctx, args, d, stdin=open(dpath, 'rb').read() if d_stdin else None)
         rec.event('cli:detect')
+        if d_stdin:
+            rec.event('cli:stdin_input')
         libout = None if ofmt == 'dash' else os.path.join(d, 'lib.' + ofmt)
         try:
             buf = io.StringIO()
@@ -362,9 +374,10 @@ def run_file(ctx, spec, idx):
                                                                       'library': open(lp, 'rb').read()[:400].decode('utf-8', 'replace')}})
             if res.out != lib_stdout + str(v) + '\n':
                 rec.violation('detect_report_differs', {'case': case, 'mech': mech, 'facts': {'cli': res.out[-400:], 'library': str(v)[-400:]}})
-        crosscheck(args, res, files=[outname] if ofmt != 'dash' else [])
+        crosscheck(args, res, stdin=open(dpath, 'rb').read() if d_stdin else None, files=[outname] if ofmt != 'dash' else [])
         cp = os.path.join(d, outname)
-        solo.append({'args': args, 'outfile': None if ofmt == 'dash' else outname,
+        if not d_stdin:
+            solo.append({'args': args, 'outfile': None if ofmt == 'dash' else outname,
                      'bytes': open(cp, 'rb').read() if ofmt != 'dash' and os.path.exists(cp) else None,
                      'stdout': res.out, 'status': res.status})
     # ---------------- the same commands as ONE session: several console.main_with_argv calls in one process --
